@@ -301,6 +301,10 @@ def check_emission(P, R):
     # wsgi passes response.headerlist to start_response
     w = P.func('ombott.ombott:Ombott.wsgi')
     calls = [c for c in walk_shallow(w.node) if isinstance(c, ast.Call) and isinstance(c.func, ast.Name) and c.func.id == w.params[2]]
-    okw = any(len(c.args) >= 2 and src(c.args[1]) == 'response.headerlist' for c in calls)
+    okw = False
+    for c in calls:
+        if len(c.args) >= 2 and isinstance(c.args[1], ast.Attribute) and c.args[1].attr == 'headerlist':
+            cl = w.rd.closure_nodes(c.args[1].value, w.cfg.node_of_stmt(c)[0])
+            okw = okw or any(isinstance(x, ast.Attribute) and dotted(x) == 'self.response' for x in cl)
     R.ob('C14.d', w, calls[0] if calls else w.node, okw, text='start_response(status, response.headerlist)', detail='' if okw else
          'the header list handed to the server is not response.headerlist')
